@@ -96,6 +96,9 @@ type Broker struct {
 	OnPacket func(c *Conn, p *wire.Packet)
 	// Mute disables all automatic replies after the CONNACK (raw streams).
 	Mute bool
+	// ReuseIDs makes Publish pick the lowest free packet identifier instead
+	// of counting on.
+	ReuseIDs bool
 }
 
 func newBroker(w *World) *Broker {
@@ -362,6 +365,9 @@ func (b *Broker) publish(topic string, payload []byte, qos byte, retain bool, id
 	m := &OutMsg{QoS: qos, Topic: topic, Payload: payload, Retain: retain}
 	if qos != 0 {
 		if id == 0 {
+			if b.ReuseIDs {
+				b.State.NextID = 1
+			}
 			for {
 				id = b.State.NextID
 				b.State.NextID++
